@@ -42,6 +42,15 @@ def make_scheduler(name, mode, seed, cs_kind="mixed", max_t=27, extra=None):
     """mode: 'min'|'max' (or list for moasha)"""
     extra = dict(extra or {})
     cs = config_space(cs_kind, max_t)
+    if name in ("fifo-bayesopt", "hb-bayesopt", "hb-hypertune"):
+        so = {"debug_log": False, "num_init_random": extra.get("num_init_random", 3), "opt_maxiter": 5, "opt_nstarts": 1}
+        if name == "fifo-bayesopt":
+            from syne_tune.optimizer.schedulers.fifo import FIFOScheduler
+            return FIFOScheduler(cs, searcher="bayesopt", metric=METRIC, mode=mode, random_seed=seed, search_options=so)
+        from syne_tune.optimizer.schedulers.hyperband import HyperbandScheduler
+        return HyperbandScheduler(cs, searcher=name.split("-")[1], metric=METRIC, mode=mode, resource_attr=RES,
+                                  max_resource_attr=MAXATTR, type="promotion", grace_period=1, reduction_factor=3,
+                                  brackets=2 if name == "hb-hypertune" else 1, random_seed=seed, search_options=so)
     if name.startswith("fifo-"):
         from syne_tune.optimizer.schedulers.fifo import FIFOScheduler
         s = name.split("-", 1)[1]
